@@ -483,7 +483,13 @@ class Report:
             if isinstance(v, int) and isinstance(self.cov.get(k), int) and k not in ("obligations", "discharged"):
                 self.cov[k] += v
             elif isinstance(v, list) and isinstance(self.cov.get(k), list):
-                self.cov[k] += v
+                self.cov[k] += [x for x in v if x not in self.cov[k]] if k == "trusted_base" else v
+            elif isinstance(v, dict) and isinstance(self.cov.get(k), dict):
+                self.cov[k].update(v)
+            elif k == "checker_cmd" and isinstance(self.cov.get(k), str) and v not in self.cov[k]:
+                self.cov[k] += " ; " + v
+            elif k == "rule" and isinstance(self.cov.get(k), str) and v not in self.cov[k]:
+                self.cov[k] += " || " + v
             else:
                 self.cov[k] = v
 
